@@ -57,6 +57,19 @@ def api_rule(chk, pid):
         positional_order(chk, "R-API", quals)
 
 
+def libns_rule(chk, pid):
+    """R-LIBNS (every property): every NumPy / SciPy name referenced by a function the property's analyses entered exists in the installed
+    library (F3: np.Array; F17: np.trapz).  C17, C10 and C06 state it for their anchored functions themselves; this covers what the
+    analyses reach beyond them."""
+    from .tyob import libns_for
+    quals = sorted(q for q in chk.functions if q in chk.P.functions and q.startswith("eqsig."))
+    if quals:
+        if "R-LIBNS" not in getattr(chk, "rules", {}):
+            chk.rule("R-LIBNS", "every NumPy/SciPy name referenced by the functions the analyses of this property enter exists in the installed "
+                                "library (resolved from the installed stubs/sources, nothing imported)")
+        libns_for(chk, "R-LIBNS", quals, only_roots=("numpy", "scipy"))
+
+
 def main(argv=None):
     ap = argparse.ArgumentParser()
     ap.add_argument("pid")
@@ -72,6 +85,7 @@ def main(argv=None):
         chk = Check(pid, a.tier, P)
         mod.run(chk)
         api_rule(chk, pid)
+        libns_rule(chk, pid)
         if a.replay:
             with open(a.replay) as f:
                 rep = json.load(f)
